@@ -4,6 +4,7 @@ use vstd::prelude::*;
 verus! {
 //@include prelude/duration.rs
 //@map Duration::MAX => Duration::max_value()
+//@map Duration::ZERO => Duration::zero_value()
 
 //@const client/src/keep_alive/backoff_strategy.rs :: NANOS_PER_SEC
 //@type client/src/keep_alive/backoff_strategy.rs :: NextAttempt
